@@ -13,6 +13,10 @@ theorem bind_ok {α β : Type} {x : R α} {f : α → R β} {v : β} (h : (x >>=
   | error e => cases h
   | ok a => exact ⟨a, rfl, h⟩
 
+/-- from `h : .ok (a, b) = .ok (r, v)` substitute `r` -/
+macro "okinj " h:ident : tactic =>
+  `(tactic| (simp only [Except.ok.injEq, Prod.mk.injEq] at $h:ident; have hh := And.left $h:ident; subst hh))
+
 /-! ### basic sub-parsers: progress -/
 
 theorem stripPrefix_len : ∀ (p inp r : Bytes), stripPrefix p inp = some r → r.length + p.length = inp.length
@@ -97,5 +101,544 @@ theorem newline_ok (inp r l : Bytes) (h : newline inp = .ok (r, l)) : r.length <
   · split at h
     · simp only [Except.ok.injEq, Prod.mk.injEq] at h; simp [← h.1]
     · simp at h
+
+theorem cStringLoop_ok : ∀ (fuel : Nat) (inp acc r v : Bytes),
+    cStringLoop fuel inp acc = .ok (r, v) → r.length < inp.length := by
+  intro fuel
+  induction fuel with
+  | zero => intro inp acc r v h; simp [cStringLoop] at h
+  | succ n ih =>
+    intro inp acc r v h
+    unfold cStringLoop at h
+    split at h
+    · simp at h
+    · split at h
+      · split at h
+        all_goals first
+          | (have := ih _ _ _ _ h; simp only [List.length_cons]; omega)
+          | skip
+        split at h
+        · have := ih _ _ _ _ h
+          simp only [List.length_cons, List.length_drop] at *; omega
+        · simp at h
+      · split at h
+        · simp only [Except.ok.injEq, Prod.mk.injEq] at h; simp [← h.1]
+        · split at h
+          · simp at h
+          · have := ih _ _ _ _ h; simp only [List.length_cons]; omega
+
+theorem parseCString_ok (inp r v : Bytes) (h : parseCString inp = .ok (r, v)) : r.length < inp.length := by
+  unfold parseCString at h
+  split at h
+  · have := cStringLoop_ok _ _ _ _ _ h; simp only [List.length_cons]; omega
+  · simp at h
+
+theorem parseFilenameDirect_ok (inp r v : Bytes) (h : parseFilenameDirect inp = .ok (r, v)) :
+    r.length ≤ inp.length := by
+  have hl := splitAtCond_snd_le isWhitespace inp
+  unfold parseFilenameDirect at h
+  generalize splitAtCond isWhitespace inp = p at h hl
+  obtain ⟨name, rest⟩ := p
+  simp only at h hl
+  split at h
+  · simp at h
+  · okinj h; omega
+
+theorem parseFilename_ok (inp r : Bytes) (v : Filename) (h : parseFilename inp = .ok (r, v)) :
+    r.length ≤ inp.length := by
+  have hl := splitAtCond_snd_le (fun c => !isSpace c) inp
+  unfold parseFilename at h
+  generalize splitAtCond (fun c => !isSpace c) inp = p at h hl
+  obtain ⟨name, rest⟩ := p
+  simp only at h hl
+  split at h
+  · rename_i r' v' heq
+    have := parseCString_ok _ _ _ heq
+    split at h <;> okinj h <;> omega
+  · split at h
+    · simp at h
+    · rename_i r' v' heq
+      have := parseFilenameDirect_ok _ _ _ heq
+      split at h <;> okinj h <;> omega
+
+theorem parseMode_ok (inp r : Bytes) (v : Nat) (h : parseMode inp = .ok (r, v)) :
+    r.length ≤ inp.length := by
+  have hl := splitAtCond_snd_le (fun c => !isSpace c) inp
+  unfold parseMode at h
+  generalize splitAtCond (fun c => !isSpace c) inp = p at h hl
+  obtain ⟨a, inp1⟩ := p
+  simp only at h hl
+  have hl2 := splitAtCond_snd_le (fun c => !isOct c) inp1
+  generalize splitAtCond (fun c => !isOct c) inp1 = q at h hl2
+  obtain ⟨digits, rest⟩ := q
+  simp only at h hl2
+  split at h
+  · simp at h
+  · split at h
+    · simp at h
+    · okinj h; omega
+
+theorem parseGitHash_ok (inp r v : Bytes) (h : parseGitHash inp = .ok (r, v)) :
+    r.length ≤ inp.length := by
+  have hl := splitAtCond_snd_le (fun c => !isHex c) inp
+  unfold parseGitHash at h
+  generalize splitAtCond (fun c => !isHex c) inp = p at h hl
+  obtain ⟨a, rest⟩ := p
+  simp only at h hl
+  split at h
+  · simp at h
+  · okinj h; omega
+
+theorem parseNumber_ok (inp r : Bytes) (v : Nat) (h : parseNumber inp = .ok (r, v)) :
+    r.length ≤ inp.length := by
+  have hl := splitAtCond_snd_le (fun c => !isDigit c) inp
+  unfold parseNumber at h
+  generalize splitAtCond (fun c => !isDigit c) inp = p at h hl
+  obtain ⟨a, rest⟩ := p
+  simp only at h hl
+  split at h
+  · simp at h
+  · split at h
+    · simp at h
+    · okinj h; omega
+
+theorem parseMetadataLine_ok (inp r : Bytes) (v : MetaLine) (h : parseMetadataLine inp = .ok (r, v)) :
+    r.length < inp.length := by
+  unfold parseMetadataLine at h
+  split at h
+  · simp at h
+  · split at h
+    · split at h
+      · simp at h
+      · rename_i r0 hs
+        have h0 := stripPrefix_len _ _ _ hs
+        obtain ⟨⟨r1, o⟩, h1, h⟩ := bind_ok h
+        obtain ⟨⟨r2, n⟩, h2, h⟩ := bind_ok h
+        obtain ⟨⟨r3, _⟩, h3, h⟩ := bind_ok h
+        have := parseFilename_ok _ _ _ h1
+        have := parseFilename_ok _ _ _ h2
+        have := takeLineIncl_ok _ _ _ h3
+        simp only [pure, Except.pure] at h
+        okinj h
+        simp only [sDiffGit, List.length_cons, List.length_nil] at h0 ⊢
+        omega
+    · split at h
+      · split at h
+        · simp at h
+        · rename_i r0 hs
+          have h0 := stripPrefix_len _ _ _ hs
+          obtain ⟨⟨r1, o⟩, h1, h⟩ := bind_ok h
+          obtain ⟨⟨r3, _⟩, h3, h⟩ := bind_ok h
+          have := parseFilename_ok _ _ _ h1
+          have := takeLineIncl_ok _ _ _ h3
+          simp only [pure, Except.pure] at h
+          okinj h
+          simp only [sMinus, List.length_cons, List.length_nil] at h0 ⊢
+          omega
+      · split at h
+        · split at h
+          · simp at h
+          · rename_i r0 hs
+            have h0 := stripPrefix_len _ _ _ hs
+            obtain ⟨⟨r1, o⟩, h1, h⟩ := bind_ok h
+            obtain ⟨⟨r3, _⟩, h3, h⟩ := bind_ok h
+            have := parseFilename_ok _ _ _ h1
+            have := takeLineIncl_ok _ _ _ h3
+            simp only [pure, Except.pure] at h
+            okinj h
+            simp only [sPlus, List.length_cons, List.length_nil] at h0 ⊢
+            omega
+        · simp at h
+
+/-- shape shared by most git metadata lines: strip a prefix, then one sub-parser -/
+theorem strip_then {α : Type} {p inp r0 r : Bytes} {x : R (Bytes × α)}
+    (hs : stripPrefix p inp = some r0) (hx : ∀ r1 a, x = .ok (r1, a) → r1.length ≤ r0.length)
+    {β : Type} {g : α → β} {v : β}
+    (h : (do let (r, a) ← x; pure (r, g a)) = (.ok (r, v) : R (Bytes × β))) : r.length ≤ inp.length := by
+  have h0 := stripPrefix_len _ _ _ hs
+  obtain ⟨⟨r1, a⟩, h1, h⟩ := bind_ok h
+  have := hx _ _ h1
+  simp only [pure, Except.pure] at h
+  okinj h
+  omega
+
+
+theorem skipLeaf {r0 r : Bytes} {v g : GitLine}
+    (h : (do let (r, _) ← takeLineSkip r0; pure (r, g)) = (.ok (r, v) : R (Bytes × GitLine))) :
+    r.length < r0.length := by
+  obtain ⟨⟨r1, a⟩, h1, h⟩ := bind_ok h
+  have := takeLineSkip_ok _ _ _ h1
+  simp only [pure, Except.pure] at h
+  okinj h
+  omega
+
+theorem modeLeaf {r0 r : Bytes} {v : GitLine} {g : Nat → GitLine}
+    (h : (do let (r, m) ← parseMode r0; let (r, _) ← newline r; pure (r, g m)) = (.ok (r, v) : R (Bytes × GitLine))) :
+    r.length < r0.length := by
+  obtain ⟨⟨r1, a⟩, h1, h⟩ := bind_ok h
+  obtain ⟨⟨r2, b⟩, h2, h⟩ := bind_ok h
+  have := parseMode_ok _ _ _ h1
+  have := newline_ok _ _ _ h2
+  simp only [pure, Except.pure] at h
+  okinj h
+  omega
+
+theorem parseGitMetadataLine_ok (inp r : Bytes) (v : GitLine) (h : parseGitMetadataLine inp = .ok (r, v)) :
+    r.length < inp.length := by
+  unfold parseGitMetadataLine at h
+  split at h
+  · simp at h
+  · split at h
+    · split at h
+      · simp at h
+      · rename_i r0 hs
+        have h0 := stripPrefix_len _ _ _ hs
+        obtain ⟨⟨r1, o⟩, h1, h⟩ := bind_ok h
+        have := parseGitHash_ok _ _ _ h1
+        simp only at h
+        split at h
+        · simp at h
+        · rename_i r2 hs2
+          have h02 := stripPrefix_len _ _ _ hs2
+          obtain ⟨⟨r3, n⟩, h3, h⟩ := bind_ok h
+          have := parseGitHash_ok _ _ _ h3
+          simp only at h
+          obtain ⟨⟨r4, nl⟩, h4, h⟩ := bind_ok h
+          have h5 := newline_ok _ _ _ h4
+          simp only [pure, Except.pure] at h
+          okinj h
+          simp only [sIndex, sDotDot, List.length_cons, List.length_nil] at h0 h02 ⊢
+          split at h5
+          · rename_i r' m hm
+            have := parseMode_ok _ _ _ hm
+            simp only at h5
+            omega
+          · simp only at h5
+            omega
+    all_goals repeat' split at h
+    all_goals first
+      | (simp at h; done)
+      | (rename_i hs; have h0 := stripPrefix_len _ _ _ hs; have := skipLeaf h
+         simp only [sRenameFrom, sRenameTo, sCopyFrom, sCopyTo, sGitBinary, List.length_cons, List.length_nil] at h0 ⊢
+         omega)
+      | (rename_i hs; have h0 := stripPrefix_len _ _ _ hs; have := modeLeaf h
+         simp only [sOldMode, sNewMode, sNewFileMode, sDeletedFileMode, List.length_cons, List.length_nil] at h0 ⊢
+         omega)
+
+theorem parsePatchLine_ok (git : Bool) (inp r : Bytes) (pl : PatchLine)
+    (h : parsePatchLine git inp = .ok (r, pl)) :
+    r.length ≤ inp.length ∧ (pl ≠ .endOfPatch → r.length < inp.length) := by
+  unfold parsePatchLine at h
+  split at h
+  · rename_i r' m hm
+    have := parseMetadataLine_ok _ _ _ hm
+    simp only [Except.ok.injEq, Prod.mk.injEq] at h
+    obtain ⟨rfl, rfl⟩ := h
+    exact ⟨by omega, fun _ => this⟩
+  · simp only at h
+    split at h
+    · rename_i r' gl hg
+      simp only [Except.ok.injEq, Prod.mk.injEq] at h
+      obtain ⟨rfl, rfl⟩ := h
+      split at hg
+      · split at hg
+        · rename_i x hx
+          simp only [Option.some.injEq] at hg
+          subst hg
+          have := parseGitMetadataLine_ok _ _ _ hx
+          exact ⟨by omega, fun _ => this⟩
+        · simp at hg
+      · simp at hg
+    · split at h
+      · rename_i r' l hl
+        have := takeLineIncl_ok _ _ _ hl
+        simp only [Except.ok.injEq, Prod.mk.injEq] at h
+        obtain ⟨rfl, rfl⟩ := h
+        exact ⟨by omega, fun _ => this⟩
+      · split at h
+        · simp only [Except.ok.injEq, Prod.mk.injEq] at h
+          obtain ⟨rfl, rfl⟩ := h
+          exact ⟨by omega, fun h => absurd rfl h⟩
+        · simp at h
+
+theorem parsePatchLine_err (git : Bool) (inp : Bytes) (e : EB)
+    (h : parsePatchLine git inp = .error e) : e = .unexpectedEndOfFile := by
+  unfold parsePatchLine at h
+  split at h
+  · simp at h
+  · simp only at h
+    split at h
+    · simp at h
+    · split at h
+      · simp at h
+      · split at h
+        · simp at h
+        · simp only [Except.error.injEq] at h; exact h.symm
+
+theorem parseLineAndCount_ok (inp r : Bytes) (line count : Nat)
+    (h : parseLineAndCount inp = .ok (r, (line, count))) :
+    r.length ≤ inp.length ∧ line ≤ 2^63 - 1 := by
+  unfold parseLineAndCount at h
+  obtain ⟨⟨r1, l1⟩, h1, h⟩ := bind_ok h
+  have := parseNumber_ok _ _ _ h1
+  simp only at h
+  split at h
+  · simp at h
+  · split at h
+    · obtain ⟨⟨r2, c2⟩, h2, h⟩ := bind_ok h
+      have := parseNumber_ok _ _ _ h2
+      simp only [pure, Except.pure, Except.ok.injEq, Prod.mk.injEq] at h
+      obtain ⟨rfl, rfl, rfl⟩ := h
+      simp only [List.length_cons] at *
+      omega
+    · simp only [pure, Except.pure, Except.ok.injEq, Prod.mk.injEq] at h
+      obtain ⟨rfl, rfl, rfl⟩ := h
+      omega
+
+theorem parseHunkHeader_ok (inp r : Bytes) (hd : HunkHeader) (h : parseHunkHeader inp = .ok (r, hd)) :
+    r.length < inp.length ∧ hd.remLine ≤ 2^63 - 1 ∧ hd.addLine ≤ 2^63 - 1 := by
+  unfold parseHunkHeader at h
+  split at h
+  · simp at h
+  · rename_i r0 hs0
+    have h0 := stripPrefix_len _ _ _ hs0
+    split at h
+    · simp at h
+    · rename_i r1 rl rc h1
+      have := parseLineAndCount_ok _ _ _ _ h1
+      split at h
+      · simp at h
+      · rename_i r2 hs2
+        have h02 := stripPrefix_len _ _ _ hs2
+        split at h
+        · simp at h
+        · rename_i r3 al ac h3
+          have := parseLineAndCount_ok _ _ _ _ h3
+          split at h
+          · simp at h
+          · rename_i r4 hs4
+            have h04 := stripPrefix_len _ _ _ hs4
+            simp only [sHunkStart, List.length_cons, List.length_nil] at h0
+            split at h
+            · rename_i r5 hs5
+              have h05 := stripPrefix_len _ _ _ hs5
+              split at h
+              · simp at h
+              · rename_i r6 f h6
+                have := takeLineSkip_ok _ _ _ h6
+                simp only [Except.ok.injEq, Prod.mk.injEq] at h
+                obtain ⟨rfl, rfl⟩ := h
+                simp only
+                omega
+            · split at h
+              · simp at h
+              · rename_i r6 f h6
+                have := takeLineIncl_ok _ _ _ h6
+                simp only [Except.ok.injEq, Prod.mk.injEq] at h
+                obtain ⟨rfl, rfl⟩ := h
+                simp only
+                omega
+
+theorem parseHunkHeader_err (inp : Bytes) : parseHunkHeader inp ≠ .error .outOfFuel := by
+  intro h
+  unfold parseHunkHeader at h
+  repeat' split at h
+  all_goals first
+    | (simp at h; done)
+    | (rename_i e he; simp only [Except.error.injEq] at h; subst h
+       first | (have := takeLineSkip_err _ _ he; simp at this) | (have := takeLineIncl_err _ _ he; simp at this))
+
+
+theorem parseHunkLine_ok (inp r : Bytes) (t : Tag) (l : Bytes) (h : parseHunkLine inp = .ok (r, (t, l))) :
+    r.length < inp.length := by
+  unfold parseHunkLine at h
+  simp only at h
+  split at h
+  · simp at h
+  · simp at h
+  · rename_i t' rest line hf
+    have hrest : rest.length < inp.length := by
+      split at hf
+      · simp at hf
+      · simp only [List.length_cons]
+        repeat' split at hf
+        all_goals first
+          | (simp at hf; done)
+          | (simp only [Except.ok.injEq, Prod.mk.injEq] at hf
+             have := takeLineIncl_ok _ _ _ hf.2
+             try simp only [List.length_cons] at this
+             omega)
+          | (simp only [Except.ok.injEq, Prod.mk.injEq] at hf
+             obtain ⟨_, rfl, _⟩ := hf; omega)
+    split at h
+    · split at h
+      · simp at h
+      · rename_i r' l' h'
+        have := takeLineIncl_ok _ _ _ h'
+        okinj h
+        omega
+    · okinj h; exact hrest
+
+theorem parseHunkLine_err (inp : Bytes) : parseHunkLine inp ≠ .error .outOfFuel := by
+  intro h
+  unfold parseHunkLine at h
+  simp only at h
+  split at h
+  · rename_i e hf
+    simp only [Except.error.injEq] at h; subst h
+    split at hf
+    · simp at hf
+    · repeat' split at hf
+      all_goals simp at hf
+  · rename_i t e hf
+    simp only [Except.error.injEq] at h; subst h
+    split at hf
+    · simp at hf
+    · repeat' split at hf
+      all_goals first
+        | (simp at hf; done)
+        | (simp only [Except.ok.injEq, Prod.mk.injEq] at hf
+           have := takeLineIncl_err _ _ hf.2; simp at this)
+  · split at h
+    · split at h
+      · rename_i e he
+        simp only [Except.error.injEq] at h; subst h
+        have := takeLineIncl_err _ _ he; simp at this
+      · simp at h
+    · simp at h
+/-- invariant of `hunkLoop`: context counts fit and the context lines are on both sides; as long as only
+context lines were seen both sides are equal and all of them are prefix context -/
+def HInv (h : PHunk) (nonctx : Bool) : Prop :=
+  h.pre + h.suf ≤ h.rem.length ∧ h.pre + h.suf ≤ h.add.length ∧ h.rem.take h.pre = h.add.take h.pre ∧
+  h.rem.drop (h.rem.length - h.suf) = h.add.drop (h.add.length - h.suf) ∧
+  (nonctx = false → h.suf = 0 ∧ h.rem = h.add ∧ h.pre = h.rem.length)
+
+theorem HInv_add (h : PHunk) (b : Bool) (line : Bytes) (hi : HInv h b) :
+    HInv { h with add := h.add ++ [line], suf := 0 } true := by
+  obtain ⟨h1, h2, h3, h4, h5⟩ := hi
+  refine ⟨?_, ?_, ?_, ?_, ?_⟩
+  · simp only; omega
+  · simp only [List.length_append, List.length_cons, List.length_nil]; omega
+  · simp only
+    rw [List.take_append_of_le_length (by omega)]
+    exact h3
+  · simp
+  · simp
+
+theorem HInv_rem (h : PHunk) (b : Bool) (line : Bytes) (hi : HInv h b) :
+    HInv { h with rem := h.rem ++ [line], suf := 0 } true := by
+  obtain ⟨h1, h2, h3, h4, h5⟩ := hi
+  refine ⟨?_, ?_, ?_, ?_, ?_⟩
+  · simp only [List.length_append, List.length_cons, List.length_nil]; omega
+  · simp only; omega
+  · simp only
+    rw [List.take_append_of_le_length (by omega)]
+    exact h3
+  · simp
+  · simp
+
+theorem HInv_ctx (h : PHunk) (b : Bool) (line : Bytes) (hi : HInv h b) :
+    HInv (if !b then { h with add := h.add ++ [line], rem := h.rem ++ [line], pre := h.pre + 1 }
+          else { h with add := h.add ++ [line], rem := h.rem ++ [line], suf := h.suf + 1 }) b := by
+  obtain ⟨h1, h2, h3, h4, h5⟩ := hi
+  cases b with
+  | false =>
+    obtain ⟨h6, h7, h8⟩ := h5 rfl
+    simp only [Bool.not_false, if_true]
+    refine ⟨?_, ?_, ?_, ?_, ?_⟩
+    · simp only [List.length_append, List.length_cons, List.length_nil]; omega
+    · simp only [List.length_append, List.length_cons, List.length_nil]; omega
+    · simp only [h7]
+    · simp only [h7]
+    · intro _
+      refine ⟨h6, by simp only [h7], ?_⟩
+      simp only [List.length_append, List.length_cons, List.length_nil]; omega
+  | true =>
+    simp only [Bool.not_true, Bool.false_eq_true, if_false]
+    refine ⟨?_, ?_, ?_, ?_, ?_⟩
+    · simp only [List.length_append, List.length_cons, List.length_nil]; omega
+    · simp only [List.length_append, List.length_cons, List.length_nil]; omega
+    · simp only
+      rw [List.take_append_of_le_length (by omega), List.take_append_of_le_length (by omega)]
+      exact h3
+    · simp only [List.length_append, List.length_cons, List.length_nil]
+      rw [List.drop_append_of_le_length (by omega), List.drop_append_of_le_length (by omega)]
+      have e1 : h.rem.length + 1 - (h.suf + 1) = h.rem.length - h.suf := by omega
+      have e2 : h.add.length + 1 - (h.suf + 1) = h.add.length - h.suf := by omega
+      rw [e1, e2, h4]
+    · intro hb; cases hb
+
+theorem HInv_WF (h : PHunk) (b : Bool) (hi : HInv h b) : h.WF :=
+  ⟨hi.1, hi.2.1, hi.2.2.1, hi.2.2.2.1⟩
+
+
+theorem hunkLoop_fuel : ∀ (fuel : Nat) (inp : Bytes) (ac rc : Nat) (h : PHunk) (nonctx : Bool),
+    inp.length < fuel → hunkLoop fuel inp ac rc h nonctx ≠ .error .outOfFuel := by
+  intro fuel
+  induction fuel with
+  | zero => intro inp ac rc h nonctx hf; omega
+  | succ n ih =>
+    intro inp ac rc h nonctx hf
+    unfold hunkLoop
+    split
+    · simp
+    · split
+      · rename_i e he
+        intro hc
+        simp only [Except.error.injEq] at hc; subst hc
+        exact parseHunkLine_err _ he
+      · rename_i inp' t line hl
+        have := parseHunkLine_ok _ _ _ _ hl
+        split
+        · split
+          · simp
+          · exact ih _ _ _ _ _ (by omega)
+        · split
+          · simp
+          · exact ih _ _ _ _ _ (by omega)
+        · split
+          · simp
+          · exact ih _ _ _ _ _ (by omega)
+
+theorem hunkLoop_ok : ∀ (fuel : Nat) (inp : Bytes) (ac rc : Nat) (h : PHunk) (nonctx : Bool) (r : Bytes) (h' : PHunk),
+    hunkLoop fuel inp ac rc h nonctx = .ok (r, h') →
+    r.length ≤ inp.length ∧ h'.add.length + r.length ≤ h.add.length + inp.length ∧
+    h'.rem.length + r.length ≤ h.rem.length + inp.length ∧
+    h'.remLine = h.remLine ∧ h'.addLine = h.addLine ∧ (HInv h nonctx → ∃ b, HInv h' b) := by
+  intro fuel
+  induction fuel with
+  | zero => intro inp ac rc h nonctx r h' hr; simp [hunkLoop] at hr
+  | succ n ih =>
+    intro inp ac rc h nonctx r h' hr
+    unfold hunkLoop at hr
+    split at hr
+    · simp only [Except.ok.injEq, Prod.mk.injEq] at hr
+      obtain ⟨rfl, rfl⟩ := hr
+      exact ⟨by omega, by omega, by omega, rfl, rfl, fun hi => ⟨_, hi⟩⟩
+    · split at hr
+      · simp at hr
+      · rename_i inp' t line hl
+        have hp := parseHunkLine_ok _ _ _ _ hl
+        split at hr
+        · split at hr
+          · simp at hr
+          · obtain ⟨i1, i2, i3, i4, i5, i6⟩ := ih _ _ _ _ _ _ _ hr
+            simp only [List.length_append, List.length_cons, List.length_nil] at i2 i3
+            refine ⟨by omega, by omega, by omega, i4, i5, fun hi => i6 (HInv_add _ _ _ hi)⟩
+        · split at hr
+          · simp at hr
+          · obtain ⟨i1, i2, i3, i4, i5, i6⟩ := ih _ _ _ _ _ _ _ hr
+            simp only [List.length_append, List.length_cons, List.length_nil] at i2 i3
+            refine ⟨by omega, by omega, by omega, i4, i5, fun hi => i6 (HInv_rem _ _ _ hi)⟩
+        · split at hr
+          · simp at hr
+          · obtain ⟨i1, i2, i3, i4, i5, i6⟩ := ih _ _ _ _ _ _ _ hr
+            have hi' := HInv_ctx h nonctx line
+            cases nonctx
+            all_goals
+              simp only [Bool.not_false, Bool.not_true, Bool.false_eq_true, if_true, if_false,
+                List.length_append, List.length_cons, List.length_nil] at i2 i3 i4 i5 i6 hi'
+              refine ⟨by omega, by omega, by omega, i4, i5, fun hi => i6 (hi' hi)⟩
+
 
 end RQ.Parse
